@@ -20,9 +20,10 @@ func corrC16(r *Run) {
 		"frames made readable singly or several at once, each in one of six fragmentation classes or split over two forced events; " +
 		"fast (always receiving) and slow (receiving on grant) consumer; non-trivial = history with at least one undecodable frame followed by a deliverable PDU; distinct by event list"
 	ts := pduTypes()
-	n := r.N(90, 2000)
+	n := r.N(130, 2000)
 	for i := 0; i < n; i++ {
-		c16Scenario(r, ts, i)
+		i := i
+		confirmed(r, func() { c16Scenario(r, ts, i) })
 	}
 }
 
